@@ -391,6 +391,7 @@ def packet_cases(ctx, n_ego, payload_lens):
     reqs, meta = [], []
 
     def expect(kind, inp, got: bytes, ref: bytes, cmd, margs):
+        """cmd None: oracle only (no Wire function for this packet)"""
         ctx.count(1, "pkt_" + kind)
         if got is None:
             ctx.property_failure("pkt_" + kind, inp, "no packet was emitted for the request", ref.hex(), None)
@@ -402,8 +403,9 @@ def packet_cases(ctx, n_ego, payload_lens):
                 cls = "beacon_mobile_flag_in_bit0"
             ctx.property_failure(cls, inp, "emitted packet differs octet-wise from the ETSI layout"
                                  + (f" at octets {diff[:8]}" if diff else " in length"), ref.hex(), got.hex())
-        reqs.append((cmd, margs))
-        meta.append((kind, inp, got))
+        if cmd is not None:
+            reqs.append((cmd, margs))
+            meta.append((kind, inp, got))
         ctx.nontriv((kind, got))
 
     def call(kind, what, fn, *a):
@@ -448,7 +450,10 @@ def packet_cases(ctx, n_ego, payload_lens):
                 p1, p2 = ctx.rng.choice([0, 1, 2001, 2002, 65535]), ctx.rng.choice([0, 1, 65535, 4660])
                 scf, off, tcid = ctx.rng.random() < 0.3, ctx.rng.random() < 0.3, ctx.rng.randrange(64)
                 tcb = (int(scf) << 7) | (int(off) << 6) | tcid
-                life = ctx.rng.choice([None, None, 50, 999, 1000, 1050, 15000, 600000])
+                # lifetimes: grid points, the multiplier clamp windows (63 x base < request < next base unit) and anything
+                life = ctx.rng.choice([None, None, 50, 999, 1000, 1050, 15000, 600000, 3149, 3150, 3200, 3999, 4000,
+                                       63000, 64000, 99999, 100000, 630000, 640000, 999999,
+                                       ctx.rng.randrange(50, 1_000_000), ctx.rng.randrange(50, 5000)])
                 hl = ctx.rng.choice([0, 1, 2, 5, 255])
                 gn_payload = pack([(16, p1), (16, p2)]) + payload
                 tc = TrafficClass(scf=scf, channel_offload=off, tc_id=tcid)
@@ -541,6 +546,21 @@ def packet_cases(ctx, n_ego, payload_lens):
             ref = pkt[:3] + bytes([pkt[3] - 1]) + pkt[4:]
             expect(kind, dict(egoinp, op="forward", received=pkt.hex()), ll.sent[0] if ll.sent else None, ref, 36,
                    [pkt[3] - 1] + list(pkt))
+        # GeoUnicast forwarded towards a NEIGHBOUR (EN 302 636-4-1 10.3.8.3 step 8): the DE PV of the forwarded packet is
+        # refreshed from the location table when that is strictly newer, otherwise the packet is copied; RHL - 1 either way
+        for fsn, (tag, de_tst) in enumerate((("older", peer_pv[0] - 1000), ("same", peer_pv[0]), ("newer", peer_pv[0] + 1)), 21):
+            pkt = stack.guc_bytes(far, fsn, *fpv, de=(peer, de_tst, 123456, -654321), payload=b"\x07\xd1\x00\x02zz",
+                                  rhl=7, mhl=9)
+            ll.sent.clear()
+            call("fwd_guc_neighbour", dict(egoinp, received=pkt.hex()), router.gn_data_indicate, pkt)
+            if tag == "older":
+                ref = stack.guc_bytes(far, fsn, *fpv, de=(peer,) + tuple(peer_pv), payload=b"\x07\xd1\x00\x02zz",
+                                      rhl=6, mhl=9)
+            else:
+                ref = pkt[:3] + bytes([pkt[3] - 1]) + pkt[4:]
+            expect("fwd_guc_de_" + tag, dict(egoinp, op="forward_to_neighbour", de_pv_in_packet=tag, received=pkt.hex(),
+                                             loct_pv=list(peer_pv)), ll.sent[0] if ll.sent else None, ref,
+                   None if tag == "older" else 36, [pkt[3] - 1] + list(pkt))
     if ctx.model.available and reqs:
         for (kind, inp, got), r in zip(meta, ctx.model.batch(reqs)):
             if bytes(r) != got:
